@@ -111,6 +111,8 @@ func (o c11Op) expect() c11Res {
 		return c11Res{B: true}
 	case "lookup", "url", "hotp-url", "helpers", "list":
 		return o.run()
+	case "bad-suite": // no code can come out of a suite that is not there; the call fails (the caller recovers if it panics)
+		return c11Res{Err: true}
 	case "hotp-err", "totp-err", "ocra-err": // failing calls: an error and nothing else, whatever happened before
 		return c11Res{Err: true}
 	case "fresh-enum":
@@ -120,6 +122,13 @@ func (o c11Op) expect() c11Res {
 	}
 	return c11Res{}
 }
+
+// brokenSuite implements otp.Suite with methods that panic (an application type that is used before it is initialised)
+type brokenSuite struct{ m map[string]int }
+
+func (b brokenSuite) Config() otp.SuiteConfig { panic("brokenSuite: Config of an uninitialised suite") }
+func (b brokenSuite) String() string          { panic("brokenSuite: String of an uninitialised suite") }
+func (b brokenSuite) Validate() error         { panic("brokenSuite: Validate of an uninitialised suite") }
 
 var postHoc = c11Res{S: "\x00reference-taken-afterwards"}
 
@@ -158,6 +167,31 @@ func (o c11Op) run() c11Res {
 		}
 		okk, err := otp.ValidateOCRA(secret, code, su, toLibIn(o.In))
 		return c11Res{B: okk, Err: err != nil}
+	case "bad-suite":
+		// an OCRA call with a Suite that cannot be used at all: the nil interface, a nil *RawSuite, an implementation of the
+		// interface whose methods panic. The pinned tree panics in such a call; a caller that recovers (every server does)
+		// goes on using the library, and whatever the call did before it failed must not show in later calls.
+		var su otp.Suite
+		switch o.Skew & 3 {
+		case 1:
+			su = (*otp.RawSuite)(nil)
+		case 2:
+			su = brokenSuite{}
+		case 3:
+			su = (*brokenSuite)(nil)
+		}
+		res := c11Res{Err: true}
+		func() {
+			defer func() { _ = recover() }()
+			if o.Dist <= 0 {
+				s, err := otp.GenerateOCRA(secret, su, toLibIn(o.In))
+				res = c11Res{S: s, Err: err != nil}
+			} else {
+				b, err := otp.ValidateOCRA(secret, "123456", su, toLibIn(o.In))
+				res = c11Res{B: b, Err: err != nil}
+			}
+		}()
+		return res
 	case "hotp-err":
 		// Dist selects how the call is made to fail: undecodable secret (4 shapes), unsupported digits, unsupported hash
 		switch {
@@ -373,6 +407,7 @@ func checkC11Seq(c c11SeqCase) verdict {
 	labels := []string{}
 	kinds := map[string]bool{}
 	hostile := false
+	afterBroken := false
 	ops := c.Ops
 	if c.Arena {
 		ops = arena([][]c11Op{c.Ops})[0]
@@ -390,7 +425,17 @@ func checkC11Seq(c c11SeqCase) verdict {
 			hostile = true
 		default:
 			want := o.expect()
-			got := o.run()
+			var got c11Res
+			if afterBroken {
+				// after a call that failed half-way every later call runs under a watchdog: "returns what it returns alone"
+				// includes returning at all
+				if !bounded(func() { got = o.run() }, 10*time.Second) {
+					hang("C11", "sequential-adversary", c, recorders["C11/sequential-adversary"], fmt.Sprintf("step %d (%s), after an OCRA call with an unusable Suite earlier in the history, did not return within 10 s and again within 20 s; alone it returns at once", i, o.Kind))
+				}
+			} else {
+				got = o.run()
+			}
+			afterBroken = afterBroken || o.Kind == "bad-suite"
 			if want == postHoc {
 				want = o.run()
 			}
@@ -414,13 +459,13 @@ func checkC11Seq(c c11SeqCase) verdict {
 }
 
 var c11Seq = newPart("C11", "sequential-adversary",
-	"rapid: sequential histories of 1..50 mixed calls (HOTP/TOTP/OCRA generation and validation, OCRA messages below and above the 256-byte pooled buffer, suite lookups, URL generation+parsing) and FAILING calls (undecodable secrets in four shapes, unsupported digits / hash, inadmissible OCRA inputs: an error and nothing else is expected, and later calls must be unaffected), in a third of the histories with all OCRA byte fields laid out as consecutive windows of one shared buffer (spare room and the other calls' data behind every field), interleaved with double garbage collections (emptying the pools and their victim caches) and an adversary that Gets buffers from both library pools through the verif hook, overwrites their full capacity, Puts them back and donates poisoned fresh buffers; invariant after every step: the result equals the reference value for the arguments alone, and every result string ever returned is still byte-identical to an independent copy; non-trivial = history with adversary or GC steps and >= 3 kinds of operation",
+	"rapid: sequential histories of 1..50 mixed calls (HOTP/TOTP/OCRA generation and validation, OCRA messages below and above the 256-byte pooled buffer, suite lookups, URL generation+parsing) and FAILING calls (undecodable secrets in four shapes, unsupported digits / hash, inadmissible OCRA inputs: an error and nothing else is expected, and later calls must be unaffected; OCRA calls with a Suite that cannot be used at all - nil interface, nil pointer, an implementation whose methods panic - from which the caller recovers: every later call runs under a watchdog and must return what it returns alone), in a third of the histories with all OCRA byte fields laid out as consecutive windows of one shared buffer (spare room and the other calls' data behind every field), interleaved with double garbage collections (emptying the pools and their victim caches) and an adversary that Gets buffers from both library pools through the verif hook, overwrites their full capacity, Puts them back and donates poisoned fresh buffers; invariant after every step: the result equals the reference value for the arguments alone, and every result string ever returned is still byte-identical to an independent copy; non-trivial = history with adversary or GC steps and >= 3 kinds of operation",
 	checkC11Seq)
 
 func drawC11Op(t *rapid.T, allowHostile bool) c11Op {
 	kinds := []string{"hotp-gen", "hotp-gen", "hotp-val", "totp-gen", "totp-val", "ocra-gen", "ocra-gen", "ocra-gen", "ocra-val", "lookup", "url", "hotp-url", "helpers", "list", "hotp-err", "totp-err", "ocra-err", "fresh-enum"}
 	if allowHostile {
-		kinds = append(kinds, "gc", "adversary", "adversary")
+		kinds = append(kinds, "gc", "adversary", "adversary", "bad-suite")
 	}
 	return drawC11OpOfKind(t, rapid.SampledFrom(kinds).Draw(t, "kind"))
 }
